@@ -214,12 +214,11 @@ fn has_type_entry(bc: &Bytecode, t: &ConcreteType) -> bool {
                         && bc.types.get(*receive).is_some_and(|r| r.is_never()))
             })
         }),
-        ConcreteType::Process(n) => bc.functions.get(*n).is_some_and(|f| {
-            let (s, r) = match bc.types.get(f.type_id) {
-                Some(Type::Callable { result, receive, .. }) => (Some(*receive), Some(*result)),
-                _ => (None, None),
-            };
-            bc.types.iter().any(|ty| matches!(ty, Type::Process { send, receive } if *send == s && *receive == r))
+        // since 5eb967d (fix of F70) the tables are computed with the process type of every function of a
+        // callable type appended to the program's types, so such a process tag always has an entry
+        ConcreteType::Process(n) => bc.functions.get(*n).is_some_and(|f| match bc.types.get(f.type_id) {
+            Some(Type::Callable { .. }) => true,
+            _ => bc.types.iter().any(|ty| matches!(ty, Type::Process { send: None, receive: None })),
         }),
         ConcreteType::Resource(n) => bc.resources.get(*n).is_some_and(|name| {
             bc.types.iter().any(|ty| matches!(ty, Type::Resource(x) if x == name))
